@@ -8,14 +8,21 @@ def clip(s, n):
 out = io.StringIO()
 _print = print
 def print(*a): _print(*a, file=out)
-print("| seed | targets | change | needs | caught by (quick tier) | run, silent |")
-print("|---|---|---|---|---|---|")
+print("| seed | targets | change | needs | caught by (quick tier) | run, silent | final re-check |")
+print("|---|---|---|---|---|---|---|")
 for d in sorted(glob.glob(os.path.join(root, "C*"))):
     m = json.load(open(os.path.join(d, "meta.json")))
     runs = m.get("quick_checks_run_against_it", {})
     caught = sorted(k for k, v in runs.items() if v == "VIOLATION")
     silent = sorted(k for k, v in runs.items() if v != "VIOLATION")
-    print(f"| {os.path.basename(d)} | {m['property']} | {clip(m['summary'], 230)} | {clip(m['needs_to_manifest'], 200)} | {', '.join(caught) or '—'} | {', '.join(silent) or '—'} |")
+    rc = m.get("rechecked")
+    if not rc:
+        final = "—"
+    elif rc["result"] == "VIOLATION":
+        final = f"caught by {rc['check']} at {rc['repo_commit']}" + (" (see note below the table)" if rc.get("note") else "")
+    else:
+        final = f"{rc['result']} at {rc['repo_commit']}; last run at {m.get('confirmed_in_scratch_worktree', {}).get('repo_commit', '?')}"
+    print(f"| {os.path.basename(d)} | {m['property']} | {clip(m['summary'], 230)} | {clip(m['needs_to_manifest'], 200)} | {', '.join(caught) or '—'} | {', '.join(silent) or '—'} | {final} |")
 
 if "--update-design" in sys.argv:
     p = os.path.join(root, "..", "DESIGN.md")
